@@ -53,15 +53,22 @@ def run(ctx):
         # same, with time-based purging (WithMaxTimeDelay) in play: the tooOld path of purgeBuffers
         resd = vlib.tlc_model(ctx, "SampleBuilder", "SampleBuilder_RingDelay", workers=6)
         done += list(resd.tag("VERIF_DONE"))
+        # same, with a receiver that pops after every push (4 packets)
+        rese = vlib.tlc_model(ctx, "SampleBuilder", "SampleBuilder_RingEager", workers=6)
+        done += list(rese.tag("VERIF_DONE"))
         # same, with a window that a single frame cannot overflow (maxLate 4): which failure classes remain
         resw = vlib.tlc_model(ctx, "SampleBuilder", "SampleBuilder_RingWide", workers=8)
-        done += list(resw.tag("VERIF_DONE"))
-        for v in resw.tag("VERIF_CLASS"):
-            v = v[0]
-            k = "%s dups=%s" % (v["class"], "yes" if v["dups"] else "no")
-            if k not in classes or len(v["vec"]["script"]) < len(classes[k]["script"]):
-                classes[k] = v["vec"]
+        for r2 in (resd, rese, resw):
+            for v in r2.tag("VERIF_CLASS"):
+                v = v[0]
+                k = "%s dups=%s" % (v["class"], "yes" if v["dups"] else "no")
+                if v["vec"].get("eager"):
+                    k += " eager"
+                if k not in classes or len(v["vec"]["script"]) < len(classes[k]["script"]):
+                    classes[k] = v["vec"]
         ctx.cov["asis_model_failure_classes"] = sorted(classes)
+        # the recorded defect's precondition, on the models: with maxLate >= 4 no failure without a Flush before
+        ctx.cov["asis_model_classes_window_without_flush"] = sorted(k for k in classes if "/no-flush-yet:window" in k)
     conf = []
     for v in done:
         c = dict(v[0]["vec"])
@@ -72,6 +79,8 @@ def run(ctx):
         raise vlib.NoVerdict("the exhaustive run printed no finished session")
     # 3. the same algorithm with the three named repairs satisfies all five predicates (same bounds)
     vlib.tlc_model(ctx, "SampleBuilder", "SampleBuilder_RingABC" + q, workers=6)
+    if not quick:
+        vlib.tlc_model(ctx, "SampleBuilder", "SampleBuilder_RingABCQ", workers=6)   # incl. the eager receiver
     # 4. as is, one purgeBuffers call can iterate over the whole ring (filled.head overtakes filled.tail)
     if not quick:
         ov = vlib.tlc_expect_violation(ctx, "SampleBuilder", "SampleBuilder_RingOvershoot", workers=2)
@@ -87,6 +96,10 @@ def run(ctx):
         w = dict(v)            # the same counterexample far away from the sequence-number wrap
         w["startBack"] = 30000
         vecs.append(w)
+    # the model's counterexamples are many now (one per label): keep the replayed ones bounded
+    if len(vecs) > 160:
+        ctx.rng.shuffle(vecs)
+        vecs = vecs[:160]
     # a seeded subset of the exhaustively enumerated sessions is judged by TLC like all others
     sub = list(conf)
     ctx.rng.shuffle(sub)
